@@ -62,8 +62,8 @@ PROPS["C15"] = dict(
         mc("cbsites", "MC_C15", "MC_C15_graph_clm.cfg", expand=G.c15_to_callbacks),
         gen("walk", G.c15_walks(60 if tier == "quick" else 1500, 200)),
     ],
-    rule="(graph) every reachable state of the map over names {a,b,c} x every operation of a 90-operation alphabet "
-         "(set INT/STR/BOOL/JSON obj, arr, malformed, scalar, NULL text; names a, b, empty, NULL; with and without "
+    rule="(graph) every reachable state of the map over names {a,b,c,r,n,o,l} x every operation of a 108-operation alphabet "
+         "(set INT/STR/BOOL/JSON obj, a second object carrying a real, a null, a nested object and an array, arr, malformed, scalar, NULL text; names a, b, empty, NULL; with and without "
          "replace; get of each type; delete one/all), one implementation test per transition, on builder claims and "
          "builder headers, and the same behaviours on the jwt_t inside a generate callback and a verify callback; "
          "(seq) all sequences up to length 3 (quick) / 4 (thorough) over a 16-operation alphabet; (walk) seeded "
@@ -408,8 +408,9 @@ PROPS["C11"] = dict(
          "one. Against the implementation (CodecBatch; inputs regenerated and counted in TLC): encode of every byte "
          "string of length 0, 1, 2, of every 3-byte block with first byte in {0, 77, 251, 255} (quick) / every first "
          "byte = all 16.8 M blocks (thorough), 4-byte strings with 6 prefixes; decode of every text of length 0..4 "
-         "over the 24-character alphabet (alphabet edges, both alphabets, '=', foreign and high-bit bytes), lengths "
-         "5..8 over 8 characters, and length 4 over 40 characters (thorough). Plus seeded random strings up to 64 KiB "
+         "over a 32-character alphabet (alphabet edges, both alphabets, '=', foreign bytes, high-bit bytes incl. the "
+         "high-bit twins of alphabet characters), lengths 5..8 over 8 characters, length 4 over 40 characters "
+         "(thorough), and valid texts of length 2, 3, 4, 6, 7, 8 with ONE position ranging over all 255 byte values. Plus seeded random strings up to 64 KiB "
          "(valid, one foreign byte, length 1 mod 4, standard alphabet, padded) in exact-size heap buffers under ASan. "
          "distinct = distinct batch descriptors / random cases.",
     assumptions=ASSUME_COMMON + ["jwt_base64uri_encode/_decode are called directly (internal symbols of the static library)"],
@@ -454,7 +455,8 @@ PROPS["C18"] = dict(
          "12 (GnuTLS) / 13 (OpenSSL) threads at once - HS256, HS512, RS256, PS256, ES256, ES384, ES512, EdDSA "
          "(Ed25519, Ed448), ES256K, three algorithms twice - each with its own builder and checker, sharing one "
          "keyring of 12 keys, 150 (quick) / 2000 (thorough) iterations of claim_set + generate + verify + verify "
-         "damaged, random start skew, 3 (quick) / 25 (thorough) repetitions per provider, libjwt and driver built with "
+         "damaged, random start skew, 4 (quick) / 30 (thorough) repetitions per provider - in every other repetition the "
+         "threads do not hold their keys but look them up by kid in the shared keyring from their callbacks at every call -, libjwt and driver built with "
          "ThreadSanitizer (halt on first report); the same calls are first made one after another and both result "
          "lists (verdicts, and token digests for deterministic algorithms) are compared in TLC. distinct = distinct "
          "(provider, repetition) runs; evaluations = Thread events judged.",
